@@ -39,25 +39,27 @@ P = {
     "coq_targets": ["Properties/C05.vo", "Run/Eval_C05.vo"],
     "theorems_module": "Properties.C05",
     "theorems": ["C05_accept_sound", "C05_demands_unfold", "C05_accept_complete", "C05_authenticate_iff_spec",
-                 "C05_fixed_iff_spec", "C05_F1_refuted", "C05_F2_refuted", "C05_subject_from_verified_claims",
+                 "C05_F3_refuted", "C05_pinned_iff_spec", "C05_F1_pinned_refuted", "C05_F2_pinned_refuted", "C05_subject_from_verified_claims",
                  "C05_unsigned_rejected", "C05_modified_or_foreign_token_rejected", "C05_alg_confusion_rejected",
                  "C05_default_algorithms", "C05_merge_precedence", "C05_no_nil_matcher", "C05_exact_scopes",
                  "C05_hierarchic_scopes", "C05_wildcard_scopes", "C05_nonvacuous"],
     "streams": [{
         "name": "tokens", "pkg": "./internal/rules/mechanisms/authenticators", "test": "TestVerifC05",
         "overlay": {"internal/rules/mechanisms/authenticators/zz_verif_c05_test.go": "c05/c05_test.go"},
-        "eval_module": "Run.Eval_C05", "check_term": "check false false",
-        "n_quick": 1500, "n_thorough": 40000, "findings": {1: "C05-F1", 2: "C05-F2"},
+        "eval_module": "Run.Eval_C05", "check_term": "check true true",
+        "n_quick": 1500, "n_thorough": 40000, "findings": {1: "C05-F1", 2: "C05-F2", 3: "C05-F3"},
     }],
     "rule": "a jwt authenticator created by the real type registry from a generated configuration (issuers, audience, scopes "
             "with exact/hierarchic/wildcard strategy, allowed_algorithms, validity_leeway incl. sub-second and negative, "
             "validate_jwk, subject id member) and, in 40% of the cases, reconfigured on the rule level (WithConfig) x a key set "
+            "(jwks_endpoint, or in 18% metadata_endpoint whose document names the issuer and the jwks_uri) "
             "of 0-4 JWKs served by a local httptest JWKS endpoint (RSA-2048, P-256/384/521, Ed25519, oct keys; declared alg "
             "present/absent/not fitting; duplicate and empty kids; x5c chains valid / foreign CA / expired / wrong key usage; "
             "endpoint up/refusing/5xx/garbage) x a token minted with go-jose (RS/PS/ES/EdDSA/HS, kid right/absent/wrong; "
             "iss/aud/scp/scope/exp/nbf/iat around the boundaries now +- leeway +- 2 s, <= 0, beyond int64, fractional, wrong "
             "types; payload not an object) and mutated in 35% of the cases (signature byte flip / empty / foreign, payload or "
-            "header replaced after signing, alg:none spellings, HS* keyed with the bytes of a published public key, structural "
+            "header replaced after signing, alg:none spellings, HS* keyed with the bytes of a published public key, attacker key "
+            "embedded as `jwk` header, structural "
             "damage, random character replacement, non-canonical base64) sent in header, query or body; 55% of the cases are "
             "repaired to be valid but for one or two perturbations. Observation = subject id + whether the attributes equal "
             "the sent payload, or the error class by errors.Is. Non-trivial = the token parsed and the decision was taken in "
@@ -97,16 +99,19 @@ P = {
                   "audience is present, the required scopes match, now lies in [nbf - leeway, exp + leeway) and iat is not in the "
                   "future, and the subject id is the configured member of those verified claims (soundness + completeness against "
                   "an independently written specification); unsigned tokens, tokens no published key verifies, and algorithm "
-                  "confusion are rejected unconditionally; Merge precedence rule > mechanism > metadata. Two deviations are "
-                  "recorded as findings with guards and refutation witnesses (exp <= 0 never expires; nbf/iat >= 2^63 wrap to "
-                  "'not set'); with both candidate fixes the theorem holds unguarded. The model is tied to the code by running "
+                  "confusion are rejected unconditionally; Merge precedence rule > mechanism > metadata. Two deviations found "
+                  "by the model (exp <= 0 never expired; nbf/iat >= 2^63 wrapped to 'not set') were repaired by fix: commits "
+                  "a3a89b7 and f16c3cc; the theorem is about the repaired code, the former behaviour is kept as "
+                  "C05_pinned_iff_spec / C05_F1_pinned_refuted / C05_F2_pinned_refuted; the one guard left is the exotic C05-F3 "
+                  "(exp = -62135596800, Go's zero time, still counts as absent). The model is tied to the code by running "
                   "~1500 (quick) / 40000 (thorough) generated and mutated tokens per run through the real authenticator against a "
                   "local JWKS server.",
     "level_note": "Partial by construction: signature verification, JSON/JWS parsing and certificate validation are oracles (trusted "
                   "base); the theorem is about the decision logic around them. Error kinds are compared as classes by errors.Is "
                   "(argument / authentication [+assertion | +scope] / communication / internal), so the order of the assertions "
                   "is only visible where the class differs. Key cache, metadata_endpoint discovery, custom jwt_source and subject "
-                  "attribute templates are not exercised. Open findings C05-F1, C05-F2 are printed as KNOWN-FINDING on every run.",
+                  "attribute templates are not exercised (metadata_endpoint with a fixed URL is). Open finding C05-F3 is printed as "
+                  "KNOWN-FINDING on every run; C05-F1 and C05-F2 are fixed (reverting either commit is reported as VIOLATION).",
     "extra_coverage": site_coverage,
     "assumptions": ["sane_clock: the clock lies after 1970 and before the int64 horizon by more than the leeway",
                     "the key cache is off in the driver (cache_ttl: 0s), every case fetches its own key set from the local JWKS server"],
